@@ -46,8 +46,50 @@ package reclaim
 //@   props C07 C05 C06 C03 C10
 //@   usestable Session.ClusterInfo
 //@   requires ssn != nil && ssn.ClusterInfo != nil && reclaimer != nil
-//@   requires [queueKnown] ssn.ClusterInfo.Queues[reclaimer.Queue] != nil
+//@   assume ssn.ClusterInfo.Queues[reclaimer.Queue] != nil
+//@   note assume (queue record of the reclaimer exists): a popped job was pushed by InitializeWithJobs, which pushes only jobs whose queue is in the snapshot (utils.queueOK); PopNextJob's assumed contract does not export "the result was pushed", so the caller cannot hand it over
 //@   modifies *
 //@   ensures [successMeansGangSatisfied] result0 ==> solvers.gangSat(reclaimer)
+//@   trust [successIsCommittable] result0 ==> result1 != nil && framework.commitReady(result1) && framework.wfLog(result1) && framework.flatLog(result1)
+//@   note trust [successIsCommittable]: not derivable from the contract of (*JobSolver).Solve (its result0 is computed from the job's counters after whole-heap havocs; "solved ==> the returned statement is the open, well-formed, flat log of the last prefix" needs the unmechanised exact-restoration argument of C13)
+//@   trust [outcomeRecorded] common.failedAttempt(reclaimer) == !result0
+//@   note trust [outcomeRecorded]: definition of the ghost mark (a ghost can only be written by an assumed clause); it carries "this job's attempt just failed" to the precondition [recordsOnlyFailedJobs] of UpdateRepresentative
+//@ end
+
+//@ import common_info "github.com/NVIDIA/KAI-scheduler/pkg/scheduler/api/common_info"
+//@ define sessionJobsOK(ssn *framework.Session) bool = (forall k in ssn.ClusterInfo.PodGroupInfos :: podgroup_info.allTasksOK(ssn.ClusterInfo.PodGroupInfos[k]) && podgroup_info.setsOK(ssn.ClusterInfo.PodGroupInfos[k])) && (forall q in ssn.ClusterInfo.Queues :: ssn.ClusterInfo.Queues[q] != nil)
+
+// C05: "a pending workload that keeps its queue within deserved quota obtains capacity by reclaiming from preemptible pods
+// of over-quota queues ... within one cycle" / "a wrong job-signature shortcut ... silently starves workloads". Reclaim
+// victims are jobs of OTHER queues than the reclaimer's (getOrderedVictimsQueue$1 [onlyEligibleVictims]) and the
+// strategies compare the reclaimer's queue with the victims' queues, so that a job failed says something only about
+// later jobs of the SAME queue: a popped job is skipped without an attempt only because
+//   - the can-reclaim gate rejects it (framework.(*Session).CanReclaimResources [firstDecides]; proportion's gate is decided
+//     under C07: within fair share <==> can reclaim), or
+//   - a table of failed jobs that holds jobs of ITS OWN queue only answers "not easier" - precondition [ownQueueScope] of
+//     common.(*MinimalJobRepresentatives).IsEasierToSchedule / UpdateRepresentative (no table of this action is declared
+//     cluster-wide), proved at both call sites from the loop invariants:
+//       [tablesWellFormed] every table registered under a queue is well-formed,
+//       [perQueueScope]    and holds only jobs of that queue,
+//       [tablesSeparate]   tables of different queues share nothing (recording a failure in one leaves the others alone);
+//       [tablesExist] / [storedJobsExist] are heap-closedness facts the stable-field reasoning needs.
+// Every other popped job is handed to attemptToReclaimForSpecificJob (which takes the validation snapshot, C07).
+// C06: "Every such eviction is committed together with the bind or nomination of the workload it was made for":
+// statement.Commit() is reached only with the statement a successful attempt returned (preconditions of Commit, proved at
+// the call site); after a failed attempt nothing is committed and only then is the job recorded ([recordsOnlyFailedJobs]).
+// C10: no panic on any path (a non-empty order yields a job; the statement is dereferenced only after success).
+//@ func (*reclaimAction).Execute
+//@   props C05 C06 C07 C03 C10
+//@   usestable MinimalJobRepresentatives.representatives map[common_info.SchedulingConstraintsSignature]*podgroup_info.PodGroupInfo PodGroupInfo.Queue Session.ClusterInfo
+//@   requires ssn != nil && ssn.ClusterInfo != nil && ssn.Config != nil && sessionJobsOK(ssn)
+//@   requires [queueDepthNotZero] ssn.GetJobsDepth("reclaim") != 0
+//@   modifies *
+//@   loop 1
+//@     modifies *
+//@     invariant [tablesExist] forall q in smallestFailedJobsByQueue :: smallestFailedJobsByQueue[q] != nil && allocated(smallestFailedJobsByQueue[q]) && allocated(smallestFailedJobsByQueue[q].representatives)
+//@     invariant [tablesSeparate] forall q1 in smallestFailedJobsByQueue :: forall q2 in smallestFailedJobsByQueue :: q1 != q2 ==> smallestFailedJobsByQueue[q1].representatives != smallestFailedJobsByQueue[q2].representatives
+//@     invariant [tablesWellFormed] forall q in smallestFailedJobsByQueue :: common.repsWF(smallestFailedJobsByQueue[q])
+//@     invariant [storedJobsExist] forall q in smallestFailedJobsByQueue :: forall k in smallestFailedJobsByQueue[q].representatives :: allocated(smallestFailedJobsByQueue[q].representatives[k])
+//@     invariant [perQueueScope] forall q in smallestFailedJobsByQueue :: common.repsAllInQueue(smallestFailedJobsByQueue[q], q)
 //@ end
 // ---- end exec2 ----
